@@ -47,8 +47,10 @@ class C20(Check):
     driver = "drv_c20"
     theorems = ["Pox.C20.ioworker_stream", "Pox.C20.ioworker_drained", "Pox.C20.ioworker_after_fatal", "Pox.C20.ctl_stream",
                 "Pox.C20.ctl_quiescent", "Pox.C20.ctl_after_fatal", "Pox.C20.ctl_no_attempt_after_fatal"]
-    anchors = [("pox/lib/ioworker/__init__.py", 127, 142), ("pox/lib/ioworker/__init__.py", 244, 248), ("pox/lib/ioworker/__init__.py", 287, 322),
-               ("pox/openflow/of_01.py", 426, 516), ("pox/openflow/of_01.py", 868, 900)]
+    anchors = [("pox/lib/ioworker/__init__.py", "IOWorker._do_send"), ("pox/lib/ioworker/__init__.py", "IOWorker._consume_send_buf"),
+               ("pox/lib/ioworker/__init__.py", "IOWorker.send"), ("pox/lib/ioworker/__init__.py", "RecocoIOWorker.send_fast"), ("pox/lib/ioworker/__init__.py", "RecocoIOWorker.send"),
+               ("pox/openflow/of_01.py", "DeferredSender._sliceup"), ("pox/openflow/of_01.py", "DeferredSender.send"), ("pox/openflow/of_01.py", "DeferredSender.run"),
+               ("pox/openflow/of_01.py", "Connection.send")]
     design_ref = "DESIGN.md §5 C20"
     technique = ("Lean 4 proof: stream invariant over all op sequences (IOWorker) and over all interleavings of a two-actor transition system "
                  "(Connection.send steps / DeferredSender flush steps / environment) + differential correspondence against the real classes with scripted sockets")
@@ -124,12 +126,27 @@ class C20(Check):
         # thread scheduler; the executed trace is translated into model actions and replayed through cstep
         for c in self._thread_cases(rng, tier): yield c
 
+    partT_skipped = None
+
     def _thread_cases(self, rng, tier):
         import c20_threads
+        try:
+            c20_threads.env()
+        except LookupError as e:
+            # the trace translation of part T is keyed on the statement shapes of Connection.send / DeferredSender.run; on a
+            # tree where they are shaped differently the real-thread runs cannot be translated into model actions.  Parts A and
+            # B (which drive the same code sequentially and need no translation) still tie the model to this tree; say so in
+            # the evidence instead of reporting a property violation nobody observed.
+            self.partT_skipped = "part T (real-thread trace validation) not run on this tree: %s" % e
+            common.log("C20: " + self.partT_skipped)
+            return
         n = 60 if tier == "quick" else 10 ** 9
         for k, c in enumerate(c20_threads.thread_cases(rng, tier)):
             if k >= n: break
             yield {"part": "T", "tcase": c}
+
+    def extra_evidence(self):
+        return {"part_T_skipped": self.partT_skipped}
 
     def _rout(self, rng):
         r = rng.random()
